@@ -173,6 +173,19 @@ impl Freelist {
         let count = self.pages().len() as u64;
         HEADER_SIZE + (PAGE_ID_SIZE * count)
     }
+
+    #[cfg(feature = "verif-hooks")]
+    pub(crate) fn verif_free(&self) -> Vec<PageID> {
+        self.free_pages.iter().cloned().collect()
+    }
+
+    #[cfg(feature = "verif-hooks")]
+    pub(crate) fn verif_pending(&self) -> Vec<(u64, Vec<PageID>)> {
+        self.pending_pages
+            .iter()
+            .map(|(k, v)| (*k, v.clone()))
+            .collect()
+    }
 }
 
 #[cfg(test)]
